@@ -1,0 +1,16 @@
+//go:build verif
+
+package miner
+
+import (
+	"0chain.net/chaincore/block"
+	"0chain.net/chaincore/transaction"
+	"github.com/0chain/common/core/util"
+)
+
+// VerifValidateTransaction exposes validateTransaction (nonce classification used by block
+// generation) to the verification harness. Thin wrapper, no logic.
+func (mc *Chain) VerifValidateTransaction(b *block.Block, bState util.MerklePatriciaTrieI,
+	txn *transaction.Transaction) (int64, error) {
+	return mc.validateTransaction(b, bState, txn, nil)
+}
